@@ -349,7 +349,7 @@ def inst_tokens(inst):
     return out
 
 
-VARIANTS = ('compact', 'spaced', 'lines', 'cmt_structural', 'cmt_before_top')   # + 'cmt_between': comments only on their own lines between instances
+VARIANTS = ('compact', 'spaced', 'lines', 'cmt_structural', 'cmt_before_top', 'zero_ids')   # + 'cmt_between': comments only on their own lines between instances
 
 COMMENTS_BENIGN = ['/* c */', '/**/', '/*\n multi\n line */', '/* * / */', '/* a, b */']
 COMMENTS_HOSTILE = ["/* it's */", '/* ; */', '/* #99 = X(1); */', '/* ( */', '/* ) */', '/* ENDSEC; */']
@@ -374,6 +374,9 @@ def join_tokens(toks, variant, rng):
     is_complex = n > 3 and toks[2][0] == '(' or (toks[0][0] == 'state' and n > 4 and toks[3][0] == '(')
     for i, (cls, txt) in enumerate(toks):
         nxt = toks[i + 1][0] if i + 1 < n else None
+        if variant == 'zero_ids' and txt[:1] == '#' and txt[1:].isdigit() and cls in ('id', 'val'):
+            # instance names with leading zeros (fixed-width numbering): #0010 names instance 10, in definitions and references
+            txt = '#' + '0' * rng.choice((1, 2, 3, 4 - min(4, len(txt) - 1))) + txt[1:]
         o.append(txt)
         if cls == '(':
             depth += 1
